@@ -389,4 +389,15 @@ def runScheduleX (cap : Nat) (taken : List Nat) (ids : List Nat) (checkUnderLock
     ",".intercalate ((sortN (fresh sc.sys.disk)).map toString) ++ " | " ++
     showOpt (sc.sys.table v) ++ ":" ++ showOpt (sc.sys.disk v)
 
+/-! ### the request entry (ptt.NewRegister)
+
+ptt.NewRegister builds a record from the request — a pure step on a value of the request's own — and hands
+it to SetupNewUser. In the model the id a registration checks, writes and reports on is the per-thread
+constant `P.idOf t`: that is right exactly when the record is not shared between requests, a regenerated
+fact (`Gen.Reg.requestRecord = "fresh"`: composite literal, `new`, or the address of a local). The ops
+`nregp` / `nregx` are `regp` / `regx` driven through ptt.NewRegister; the model is the same. -/
+
+def requestRecordLocalOf (verdict : String) : Bool := verdict == "fresh"
+def sourceRequestRecordLocal : Bool := requestRecordLocalOf Gen.Reg.requestRecord
+
 end PttVerif.C15
